@@ -209,6 +209,9 @@ def family(tier):
         cat(("let", ["A"], pa), ("star", ("paren", [], cat(("let", ["B"], pb), fail))), A), cat(("let", ["A"], pa), ("cap", [], ("let", ["A"], pb)), A), cat(("let", ["A"], pa), orl(("let", ["A"], pb), pc), A),
         cat(("let", ["A"], pa), ("block", [], cat(("let", ["A"], pb), A)), W("apply"), A), cat(("let", ["bw"], pa), W("bw")), cat(W("bw")), cat(("let", ["A"], pa), ("opt", ("paren", [], ("let", ["B"], pb))), A),
         cat(("let", ["A"], p1), ("let", ["B"], cat(A, W("inc2"))), B, A), X,
+        # every splice of a format string is a sub-expression of its own: a name bound in one is unknown to its siblings
+        ("str", [cat(("let", ["A"], pa), A), " ", cat(("let", ["A"], pb), A)]), cat(("let", ["A"], pc), ("str", [A, "-", cat(("let", ["A"], pa), A), "-", A])),
+        ("str", [A, " ", cat(("let", ["A"], pa), A)]),
         # a name bound inside a block shadows a builtin word of the same name for the blocks nested in it
         cat(pa, ("block", ["bw"], cat(("block", [], W("bw")), W("apply"))), W("apply")), cat(("block", [], cat(("let", ["bw"], pa), ("block", [], cat(("block", [], W("bw")), W("apply"))), W("apply"))), W("apply")),
         # the two operands of an infix assertion are independent sub-expressions: a name bound in one is not visible in the other
